@@ -41,7 +41,7 @@ CHECKS = {
         "crash-point enumeration inside property-based scenarios: cancellation injected at every task step of each generated close path, closure oracle on in-memory transports",
         "Every generated close scenario (TLS aclose/wrap against a live stdlib-ssl peer, stapled transports, endpoint, AsyncTCPNetworkClient with/without a parked sender; scripted errors of the wrapped transport) "
         "is first run uncancelled to count its task steps, then re-run with a cancellation before every step, as task.cancel() and from an enclosing scope; afterwards every underlying transport must be closed, is_closing() true, second close prompt.",
-        "In-memory transports mark themselves closed synchronously in aclose() like the asyncio adapter; one listed known finding (D7) is reported as KNOWN-FINDING.",
+        "In-memory transports mark themselves closed synchronously in aclose(); the asyncio adapter runs over a fake selector transport and the listener over a real loopback socket; D7, D12, D13 found here are repaired in /repo, one listed known finding (D14: adapter close cancelled with unsent data) is reported as KNOWN-FINDING.",
         "DESIGN.md section 3 C14",
     ),
     "C04": (
@@ -81,7 +81,7 @@ CHECKS = {
         "property-based operation sequences against a waiter-set model (WriteFlowControl) and against the real asyncio protocols over a fake selector transport; one real-socket backpressure probe",
         "Generated interleavings of sends, peer reads, pause/resume, connection loss, close and cancellation of individual senders for WriteFlowControl, StreamReaderBufferedProtocol + adapter and the datagram endpoint/listener protocols over fake asyncio transports with bounded kernel capacity; "
         "a returning sender has its bytes handed to the kernel, parked senders resume or fail with a connection error, none is stranded. A real socketpair variant sends 8 MiB to a non-reading peer.",
-        "Fake transports mirror CPython 3.12 selector transports (fixed writelines); the stdlib writelines defect of 3.12.1 is a listed known finding (D9) re-observed on every run through a committed replay.",
+        "Fake transports mirror CPython 3.12 selector transports (fixed writelines); the send_all_from_iterable/writelines defect (D9) and the user-space queueing of datagram sends (D15) found here are repaired in /repo and re-checked on every run through committed replays.",
         "DESIGN.md section 3 C20",
     ),
     "C02": (
